@@ -40,6 +40,9 @@ func (fr *Frame) execCallCommon(ins ssa.Instruction, c *ssa.CallCommon, st *Stat
 	eng := fr.run.eng
 	var args []Val
 	resT := c.Signature().Results()
+	if _, isBuiltin := c.Value.(*ssa.Builtin); !isBuiltin {
+		fr.atHook("call", calleeName(c), ins, st)
+	}
 	if c.IsInvoke() {
 		recv := val(c.Value)
 		for _, a := range c.Args {
@@ -105,7 +108,11 @@ func (fr *Frame) callFunction(ins ssa.Instruction, callee *ssa.Function, args []
 		if hasLoop(callee) {
 			panic(outsideSubset{"callee " + name + " has loops and no contract"})
 		}
-		sub := newFrame(fr.run, callee, fr.depth+1, fr.prefix+"inl."+callee.Name()+".", nil)
+		inlName := callee.Name()
+		if ord := fr.callOrd[callee.Name()][ins]; ord > 1 {
+			inlName = fmt.Sprintf("%s~%d", callee.Name(), ord)
+		}
+		sub := newFrame(fr.run, callee, fr.depth+1, fr.prefix+"inl."+inlName+".", nil)
 		sub.dry = fr.dry
 		for i, fv := range callee.FreeVars {
 			if i < len(closure) {
@@ -170,7 +177,7 @@ func (fr *Frame) applyContract(ins ssa.Instruction, c *FuncContract, short strin
 	env := &SpecEnv{eng: eng, pkg: c.Pkg, cur: st, vars: map[string]Val{}, fr: nil}
 	// bind parameters
 	names := c.Params
-	if callee != nil {
+	if callee != nil && len(c.Params) == 0 {
 		names = nil
 		for _, p := range callee.Params {
 			names = append(names, p.Name())
